@@ -52,9 +52,10 @@ THEOREMS = [
        "every dice value in [0,1)"),
     _T("cn_only_then", "for k != k_CN the step is literally the stochastic step (isCN = false)"),
     _T("cn_only_then_law", "... in which a vial nucleates only if its draw is below k_v*V*(T_eq_l-T)^b*dt"),
-    _T("cn_every_repetition", "every repetition of a Snowfall (any mode / chunking) is the fresh standalone run of the template (C04 "
-       "snowfall_rep_standalone), so it agrees with the same repetition without cnTemp on every column <= k_CN and is forced "
-       "only at k_CN"),
+    _T("cn_every_repetition", "packaging: composition of C04.snowfall_rep_standalone (every repetition of a Snowfall, any mode / "
+       "chunking, has the draw schedule of the fresh standalone run) with the universally quantified C10 run theorems "
+       "(prefix identity up to k_CN, forced only at k_CN - these two conjuncts hold for ANY inputs and do not use the "
+       "repetition hypothesis); the map from the draw schedule to the dice of Flake.run is a PARAMETER (inputsOf), not modelled"),
     _T("nonvacuous", "every hypothesis set is instantiated: program with a 10 s hold at cnTemp (cnt = 30 = end of the hold, hin, range), a step reaching cnt, a run with a step, a state with a liquid supercooled vial and dice < 1",
        "nonvacuity"),
 ]
